@@ -40,16 +40,20 @@ def rnd_name(rng, used):
 def gen_population(rng, tier):
     used = set()
     pop = []
-    for _ in range(rng.randint(1, 6)):
-        kind = rng.choice(['plain', 'plain', 'multizone', 'matrix'])
+    # a third of the populations are painted from a palette of two or three colours: equal colours on neighbouring zones,
+    # cells and lights (a capture that leaves out what "has not changed" has to know what came in between)
+    palette = [rnd_colour(rng) for _ in range(rng.randint(2, 3))] if rng.random() < 0.35 else None
+    colour = (lambda: list(rng.choice(palette))) if palette else (lambda: rnd_colour(rng))
+    for _ in range(rng.randint(1, 6) if not palette else rng.randint(3, 6)):
+        kind = rng.choice(['plain', 'plain', 'multizone', 'matrix'] if not palette else ['plain', 'multizone', 'multizone', 'matrix'])
         spec = {'name': rnd_name(rng, used), 'group': 'G', 'location': 'L', 'kind': kind, 'zones': 0, 'h': 0, 'w': 0,
-                'colour': rnd_colour(rng), 'power': rng.choice([0, 65535])}
+                'colour': colour(), 'power': rng.choice([0, 65535])}
         if kind == 'multizone':
             spec['zones'] = rng.choice([1, 2, 8, 16, 40])
-            spec['zonecolours'] = [rnd_colour(rng) for _ in range(spec['zones'])]
+            spec['zonecolours'] = [colour() for _ in range(spec['zones'])]
         elif kind == 'matrix':
             spec['h'], spec['w'] = rng.choice([(1, 1), (2, 3), (6, 5), (11, 5)])
-            spec['cells'] = [rnd_colour(rng) for _ in range(spec['h'] * spec['w'])]
+            spec['cells'] = [colour() for _ in range(spec['h'] * spec['w'])]
         pop.append(spec)
     return pop
 
